@@ -150,10 +150,14 @@ class EachScheduling:
             if node not in self.node2collection:
                 # a late node which has not reported its collection yet
                 continue
+            # A node which is already down cannot be sent anything (its channel
+            # is closed); its tests stay pending and are taken over by its
+            # replacement once remove_node() has parked them.
             if not pending:
                 pending[:] = range(len(self.node2collection[node]))
-                node.send_runtest_all()
+                if not node.shutting_down:
+                    node.send_runtest_all()
                 node.shutdown()
-            else:
+            elif not node.shutting_down:
                 node.send_runtest_some(pending)
             self._started.append(node)
